@@ -41,6 +41,13 @@ def classify_miri(stderr):
     rest = stderr[m.end():m.end() + 3000]
     loc = re.search(r"-->\s+(\S+?):(\d+)", rest)
     where = (loc.group(1).replace(build.REPO, "<repo>") + ":" + loc.group(2)) if loc else "?"
+    if not where.startswith("<repo>"):
+        # prefer the first frame inside the repository
+        m2 = re.search(r"at (%s/src/\S+?):(\d+)" % re.escape(build.REPO), rest)
+        if m2:
+            where = m2.group(1).replace(build.REPO, "<repo>") + ":" + m2.group(2)
+        else:
+            where = os.path.basename(where)
     low = txt.lower()
     if "deadlock" in low:
         kind = "deadlock"
